@@ -199,6 +199,8 @@ def intersect_line3d_sphere(line_ray, sphere):
     sq = math.sqrt(det)
     u1 = (-b + sq) / (2 * a)
     u2 = (-b - sq) / (2 * a)
+    if not L._u_in(u1) and not L._u_in(u2) and (u1 < 0) == (u2 < 0):
+        return None  # the line_ray ends before or starts after the sphere
     if not L._u_in(u1):
         u1 = max(min(u1, 1.0), 0.0)
     if not L._u_in(u2):
